@@ -157,7 +157,8 @@ def _program(draw, tier):
             new = draw(st.lists(st.integers(50, 90), min_size=1, max_size=4,
                                 unique=True))
         regrid = dict(which=which, values=new,
-                      how=draw(st.sampled_from(["setitem", "add"])))
+                      how=draw(st.sampled_from(["setitem", "add"])),
+                      when=draw(st.sampled_from(["between", "hook"])))
         nvar2 = nvar // len(old) * len(new)
         cfg["idspace"] = cfg["rep_max"] * (nvar + nvar2) + 2
     return dict(part="program", cfg=cfg, mode=mode, twice=twice,
@@ -293,10 +294,18 @@ def check(case, ctx):
                     values = (np.array(rg["values"])
                               if cfg["container"].get(name) == "array"
                               else list(rg["values"]))
-                    if rg["how"] == "setitem":
-                        runner.params[name] = values
+                    def apply(name=name, values=values, how=rg["how"]):
+                        if how == "setitem":
+                            runner.params[name] = values
+                        else:
+                            runner.params.add(name, values)
+                    if rg.get("when") == "hook":
+                        # the runner changes the grid itself, in its
+                        # _on_simulate_start hook
+                        env.on_start = apply
+                        ctx.label("regrid_in_on_simulate_start")
                     else:
-                        runner.params.add(name, values)
+                        apply()
                     env.regrid(cfg)
                     model.cfg = cfg
                     names, combos = H.variations_of(cfg)
